@@ -16,11 +16,14 @@ func vC08Sync(L int) {
 	pipe := op.mk(c)
 	rec := &vRecorder{}
 	pipe(context.Background(), rec)
+	vQuiesce()
 	me := vThread()
+	// goroutines that exist since subscription (a context watcher ...) are not where values go
+	r0, b0 := vLive()
 	for _, st := range in {
 		p.emit(st)
 		run, blk := vLive()
-		vAssert(run+blk == 0, op.name+": a value was handed to a hidden goroutine")
+		vAssert(run+blk <= r0+b0, op.name+": a value was handed to a hidden goroutine")
 	}
 	for _, e := range rec.evs {
 		vAssert(e.thread == me, op.name+": a notification was delivered on another goroutine than the producer's")
